@@ -198,10 +198,12 @@ def make_object(seed, bm, spec, shared):
             return _fam_build(seed, spec, shared)
         build = bm[(spec['cls'], spec['label'])]
         v = spec.get('variant', 0)
-        if v == 0:
+        if v == 0 and not spec.get('mut'):
             obj, watched = build(0)
         else:
             x = build(v)[1][0]
+            for _ in range(spec.get('mut', 0)):
+                mutate_data(x.data)
             obj, watched = build(0, input=x)
     if kind == 'b':
         from nitime.analysis.base import BaseAnalyzer
@@ -216,6 +218,20 @@ def new_input(seed, bm, spec, v):
         return _fam_input(seed, v)
     with oc.quiet():
         return bm[(spec['cls'], spec['label'])](v)[1][0]
+
+
+def mutate_data(d):
+    """the in-place change op `m` applies to the data of the input an analyzer holds (same function for the reference)"""
+    if not d.flags.writeable:
+        return False
+    if d.dtype.kind in 'fc':
+        np.multiply(d, 1.5, out=d)
+        np.add(d, 1, out=d)
+    elif d.dtype.kind in 'iu':
+        d[...] = d // 2 + 1
+    else:
+        return False
+    return True
 
 
 def bad_input(obj, kind):
@@ -307,7 +323,7 @@ def serve_session(req):
                     user_class(type(make_object(seed, bm, dict(spec, kind='p'), {})[0]))
                     snap = global_snapshot(extra)
                 obj, watched = make_object(seed, bm, spec, shared)
-                objs[o] = {'obj': obj, 'spec': spec}
+                objs[o] = {'obj': obj, 'spec': spec, 'x': watched[0] if watched else None}
                 extra.add(type(obj))
                 for x in watched:
                     inputs.append([o, x, oc.hv(x)])
@@ -329,8 +345,22 @@ def serve_session(req):
             elif k == 'c':
                 import copy as _copy
                 o, src = op[1], op[2]
-                objs[o] = {'obj': _copy.copy(objs[src]['obj']), 'spec': dict(objs[src]['spec'])}
+                objs[o] = {'obj': _copy.copy(objs[src]['obj']), 'spec': dict(objs[src]['spec']), 'x': objs[src].get('x')}
                 rec['cls'] = type(objs[o]['obj']).__name__
+            elif k == 'm':
+                # the series the analyzer holds is changed IN PLACE by its owner, then handed to set_input again
+                o = op[1]
+                obj = objs[o]['obj']
+                x = obj.__dict__.get('input')
+                if x is None:
+                    x = objs[o].get('x')        # (GrangerAnalyzer keeps no `input` before its first set_input)
+                rec['mutated'] = bool(x is not None and mutate_data(x.data))
+                for it in inputs:
+                    if it[1] is x:
+                        it[2] = oc.hv(x)
+                with oc.quiet():
+                    obj.set_input(x)
+                rec['surv'] = [g for g in one_time_names(type(obj)) if g in obj.__dict__]
             elif k == 'x':
                 o = op[1]
                 obj = objs[o]['obj']
@@ -351,6 +381,7 @@ def serve_session(req):
                     x = new_input(seed, bm, objs[o]['spec'], op[2])
                     with oc.quiet():
                         obj.set_input(x)
+                    objs[o]['x'] = x
                     inputs.append([o, x, oc.hv(x)])
                 rec['surv'] = [g for g in one_time_names(type(obj)) if g in obj.__dict__]
         except Exception as e:  # noqa
@@ -410,13 +441,13 @@ class Refs:
     def key(spec):
         if 'fam' in spec:
             return ('fam', spec['fam'], spec.get('variant', 0), 'own' if spec.get('method') == 'shared' else spec.get('method', 'none'))
-        return (spec['cls'], spec['label'], spec['kind'], spec.get('variant', 0))
+        return (spec['cls'], spec['label'], spec['kind'], spec.get('variant', 0)) + ((spec['mut'],) if spec.get('mut') else ())
 
     @staticmethod
     def spec_of(key):
         if key[0] == 'fam':
             return {'fam': key[1], 'variant': key[2], 'method': key[3], 'kind': 'p'}
-        return {'cls': key[0], 'label': key[1], 'kind': key[2], 'variant': key[3]}
+        return dict({'cls': key[0], 'label': key[1], 'kind': key[2], 'variant': key[3]}, **({'mut': key[4]} if len(key) > 4 else {}))
 
     def need(self, keys, getters=None):
         """keys: reference states; getters: {key: set of getter names} (None = every getter of the class)"""
@@ -435,7 +466,7 @@ class Refs:
         ks = list(todo)
         ans = ask_many([{'kind': 'fresh', 'seed': self.seed, 'tier': self.tier, 'obj': self.spec_of(k),
                          'getters': sorted(todo[k]) if todo[k] is not None else None,
-                         'twice': (k[0] != 'fam' and k[2] == 'p' and k[3] == 0) or k[0] == 'fam'} for k in ks])
+                         'twice': (k[0] != 'fam' and k[2] == 'p' and k[3] == 0 and len(k) == 4) or k[0] == 'fam'} for k in ks])
         for k, a in zip(ks, ans):
             if k in self.have:
                 self.have[k]['getters'].update(a['getters'])
@@ -471,7 +502,9 @@ def states_of(session):
             if op[2]['kind'] != 'm':
                 cur[op[1]] = dict(op[2])
         elif op[0] == 'i':
-            cur[op[1]] = dict(cur[op[1]], variant=op[2])
+            cur[op[1]] = dict(cur[op[1]], variant=op[2], mut=0)
+        elif op[0] == 'm':
+            cur[op[1]] = dict(cur[op[1]], mut=cur[op[1]].get('mut', 0) + 1)
         elif op[0] == 'c':
             cur[op[1]] = dict(cur[op[2]])
         elif op[0] == 'r':
@@ -494,7 +527,7 @@ def describe(session):
         else:
             sp = kinds[op[1]]
             nm = sp.get('fam') or (KIND_NAME[sp['kind']] if sp['kind'] in ('m', 'b') else ('Own' if sp['kind'] == 'u' else '') + sp['cls'])
-            t = {'r': 'read', 'z': 'reset', 'i': 'set_input', 'x': 'refused-set_input'}[op[0]] + ':' + nm
+            t = {'r': 'read', 'z': 'reset', 'i': 'set_input', 'x': 'refused-set_input', 'm': 'set_input-same-object'}[op[0]] + ':' + nm
             if not parts or parts[-1] != t:
                 parts.append(t)
     return parts
@@ -516,7 +549,7 @@ def judge(session, recs, refs, pre):
         k = op[0]
         who = nm(op[1])
         if rec.get('err') and k != 'r':
-            out.append(('%s/%s/%s/raises' % (pre, who, {'n': 'construct', 'z': 'reset', 'i': 'set_input', 'c': 'copy', 'x': 'refused-set_input'}[k]), '%s raised %s' % (k, rec['err']), i))
+            out.append(('%s/%s/%s/raises' % (pre, who, {'n': 'construct', 'z': 'reset', 'i': 'set_input', 'c': 'copy', 'x': 'refused-set_input', 'm': 'set_input-same-object'}[k]), '%s raised %s' % (k, rec['err']), i))
             continue
         if k == 'n':
             for g in rec.get('ctor', []):
@@ -533,10 +566,10 @@ def judge(session, recs, refs, pre):
                 out.append(('%s/%s/%s/returned-object-is-not-the-stored-one' % (pre, who, op[2]), 'first read of `%s` returned an object that is not the stored one' % op[2], i))
             if rec.get('memo') is False:
                 out.append(('%s/%s/%s/recomputed-on-repeated-read' % (pre, who, op[2]), 'a repeated read of `%s` returned another object' % op[2], i))
-        elif k in ('z', 'i'):
+        elif k in ('z', 'i', 'm'):
             for g in rec.get('surv', []):
-                out.append(('%s/%s/%s/survives-%s' % (pre, who, g, 'reset' if k == 'z' else 'set_input'),
-                            '`%s` of %s is still stored after %s' % (g, who, 'reset()' if k == 'z' else 'set_input()'), i))
+                out.append(('%s/%s/%s/survives-%s' % (pre, who, g, {'z': 'reset', 'i': 'set_input', 'm': 'set_input-of-the-held-object'}[k]),
+                            '`%s` of %s is still stored after %s' % (g, who, {'z': 'reset()', 'i': 'set_input()', 'm': 'set_input(<the series it already holds, changed in place>)'}[k]), i))
         for (o, g, j) in rec.get('handed', []):
             out.append(('%s/%s/%s/handed-out-result-changed' % (pre, nm(o), g),
                         'the object returned by reading `%s` of %s (step %d) was changed in place by step %d (%s on %s)' % (g, nm(o), j, i, k, who), i))
@@ -607,7 +640,7 @@ def family_line(pid, session, table, cfg, raising):
         if op[0] == 'r':
             toks.append('r%d.%d' % (oid[op[1]], gid[op[2]]))
         else:
-            toks.append('%s%d' % (op[0], oid[op[1]]))
+            toks.append('%s%d' % ('i' if op[0] == 'm' else op[0], oid[op[1]]))      # `m` = set_input with new contents
     return '%s session %s %s %s %s %s' % (pid, session['cls'], il(cfg), ','.join(kinds[o] for o in order) or '-', '|'.join(toks) or '-', il(raising))
 
 
@@ -723,6 +756,9 @@ def family_sessions(cls, label, table, rng, flavour, tier, foreign):
         ops = [['n', 0, P(0)]] + [['r', 0, g] for g in some(2)] + [['c', 1, 0], ['i', 1, 2], ['i', 0, 3]]
         ops += [['r', 0, g] for g in perm(pub)] + [['r', 1, g] for g in some(3)] + [['c', 2, 1], ['z', 2]] + [['r', 2, g] for g in some(2)] + [['r', 1, g] for g in some(2)]
         S.append({'cls': cls, 'label': label, 'ops': ops, 'tag': 'copy-then-retarget-both'})
+        # the series the analyzer already holds is changed in place and handed to set_input again: a full re-target
+        ops = [['n', 0, P(0)]] + [['r', 0, g] for g in some(3)] + [['m', 0]] + [['r', 0, g] for g in perm(pub)] + [['i', 0, 2], ['r', 0, pub[0]], ['m', 0]] + [['r', 0, g] for g in some(3)]
+        S.append({'cls': cls, 'label': label, 'ops': ops, 'tag': 'held-input-changed-in-place'})
         # inputs the analyzer may REFUSE (1-d, one channel, three samples): after a refused set_input it answers as before
         ops = [['n', 0, P(0)]] + [['r', 0, g] for g in some(2)] + [['x', 0, '1d']] + [['r', 0, g] for g in perm(pub)]
         ops += [['x', 0, 'onech']] + [['r', 0, g] for g in some(3)] + [['i', 0, 3], ['x', 0, 'short']] + [['r', 0, g] for g in perm(pub)]
@@ -923,6 +959,8 @@ def _show_op(op):
         return 'o%d=copy.copy(o%d);' % (op[1], op[2])
     if op[0] == 'x':
         return 'o%d.set_input(<%s>) [refused];' % (op[1], op[2])
+    if op[0] == 'm':
+        return 'o%d.input.data changed in place; o%d.set_input(o%d.input);' % (op[1], op[1], op[1])
     return 'o%d.%s;' % (op[1], 'reset()' if op[0] == 'z' else 'set_input(v%d)' % op[2])
 
 
